@@ -120,6 +120,15 @@ def run(ck, binary, run_impl, replay):
                 if rng.random() < 0.3:
                     r = rand_bytes(rng, min(ln, 64))
                     cases.append({"k": "bytes", "f": dfn, "hex": r.hex(), "_orig": None, "_origin": "dec-raw"})
+        # buffer / chunk boundaries, every run: lengths around powers of two up to 4 KiB through every
+        # encoder, and the decoders on the valid encodings of those strings
+        for ln in (1023, 1024, 1025, 2048, 2049, 4096):
+            s = bytes((i * 37 + ln) & 0xff for i in range(ln))
+            for fn in sorted(ENCODERS):
+                cases.append({"k": "bytes", "f": fn, "hex": s.hex(), "_orig": None, "_origin": "enc-boundary"})
+            for dfn, efn in DECODER_OF.items():
+                e = py_encode(efn, s)
+                cases.append({"k": "bytes", "f": dfn, "hex": e.hex(), "_orig": s, "_origin": "dec-boundary"})
         # all 256 single bytes inside a longer context for the escapers / decoders
         for b in range(256):
             s = b"a" + bytes([b]) + b"z"
